@@ -702,7 +702,9 @@ int32 dtlsChkReplayWindow(ssl_t *ssl, unsigned char *seq64)
         }
         else
         {
-            ssl->lastRsn[0] = 1;       /* This packet has a "way larger" */
+            /* This packet has a "way larger" sequence number: the window
+               slides past everything it tracked and holds this packet only */
+            ssl->dtlsBitmap = 1;
         }
         Memcpy(ssl->lastRsn, seq64, 6);
         return 1;                   /* larger is good */
